@@ -137,6 +137,9 @@ META["rule"] += (
 META["rule"] += (
     " " + 'Added after the seventh round: compiled / sparse clustering twins on directed networks; blocks returned by the layer accessors are edited by the caller and asked again.')
 
+META["rule"] += (
+    " " + 'Added after the eighth round: sparse adjacency with explicitly stored zeros in a third of the cases.')
+
 RT = 1e-10
 LW = "lw"
 
@@ -207,7 +210,16 @@ class Graph:
                             pass
             self.net.node_weights = self.w.copy()
         else:
-            self.net = IN(adjacency=self.A.astype(np.int8),
+            Ain = self.A.astype(np.int8)
+            if self.N >= 2 and (int(self.A.sum()) + self.N) % 3 == 1:
+                # the adjacency as a scipy matrix with explicitly stored
+                # zeros (links removed by assignment): they are not links
+                import scipy.sparse as sp
+                rr, cc = np.nonzero(~np.eye(self.N, dtype=bool))
+                Ain = sp.csr_matrix((Ain[rr, cc], (rr, cc)),
+                                    shape=(self.N, self.N))
+                self.explicit_zeros = True
+            self.net = IN(adjacency=Ain,
                           directed=directed, node_weights=self.w.copy(),
                           silence_level=3)
         self.past = past
